@@ -718,4 +718,121 @@ theorem removeListItemStmts_eq {h : Heap} {l : Addr} {xs : List Addr} (hg : h.ge
   rw [appendAllH_eq _ (h.write l (.list [])) l [] (get?_write_self h _ (get?_lt hg)), Heap.write_write]
   rfl
 
+/-! ## 8. no operation shrinks the heap -/
+
+theorem doAddH_size (value : Option Addr) (path : Path) (h : Heap) (root : Addr) :
+    (doAddH value path h root).1.size = h.size := by
+  rcases doAddH_cases value path h root with h1 | ⟨_, _, _, _, _, h1, _⟩ <;> rw [h1]
+  exact size_write _ _ _
+
+theorem doRemoveH_size (path : Path) (h : Heap) (root : Addr) :
+    (doRemoveH path h root).1.size = h.size := by
+  rcases doRemoveH_cases path h root with ⟨_, h1⟩ | h1 | ⟨_, _, _, _, _, h1, _⟩ <;> rw [h1]
+  exact size_write _ _ _
+
+theorem doReplaceH_size (value : Option Addr) (path : Path) (h : Heap) (root : Addr) :
+    (doReplaceH value path h root).1.size = h.size := by
+  rcases doReplaceH_cases value path h root with h1 | h1 | ⟨_, _, _, _, _, _, _, h1, _⟩ <;> rw [h1]
+  exact size_write _ _ _
+
+/-- the tail of a move after the detach: add at `path`, roll back at `from` when that fails -/
+theorem move_tail_size (n : Addr) (f path : Path) (h1 : Heap) (root : Addr) :
+    (match doAddH (some n) path h1 root with
+      | (h2, .ok ()) => ((h2, .ok ()) : HRes)
+      | (h2, .panic) => (h2, .panic)
+      | (h2, .err) =>
+        match doAddH (some n) f h2 root with
+        | (h3, .panic) => (h3, .panic)
+        | (h3, _) => (h3, .err)).1.size = h1.size := by
+  have hs2 := doAddH_size (some n) path h1 root
+  generalize doAddH (some n) path h1 root = ra at hs2 ⊢
+  obtain ⟨h2, o2⟩ := ra
+  dsimp only at hs2
+  cases o2 with
+  | panic => dsimp only; exact hs2
+  | ok u => cases u; dsimp only; exact hs2
+  | err =>
+    dsimp only
+    have hs3 := doAddH_size (some n) f h2 root
+    generalize doAddH (some n) f h2 root = rb at hs3 ⊢
+    obtain ⟨h3, o3⟩ := rb
+    dsimp only at hs3
+    cases o3 <;> dsimp only <;> omega
+
+theorem moveOrCopyH_size_le (frm : Option Path) (path : Path) (h : Heap) (root : Addr) (move : Bool) :
+    h.size ≤ (moveOrCopyH frm path h root move).1.size := by
+  unfold moveOrCopyH moveOrCopyWith
+  dsimp only
+  cases frm with
+  | none => exact Nat.le_refl _
+  | some f =>
+    dsimp only
+    cases hn : evalH h root f with
+    | none => exact Nat.le_refl _
+    | some n =>
+      dsimp only
+      cases move with
+      | false =>
+        simp only [Bool.false_eq_true, if_false]
+        cases hc : cloneF h.size h n with
+        | none => exact Nat.le_refl _
+        | some q =>
+          obtain ⟨h1, c⟩ := q
+          dsimp only
+          rw [doAddH_size]
+          exact size_le_of_le (cloneF_spec h.size h n h1 c hc).1
+      | true =>
+        simp only [if_true]
+        split
+        · exact Nat.le_refl _
+        · split
+          · exact Nat.le_refl _
+          · have hs1 := doRemoveH_size f h root
+            generalize doRemoveH f h root = rm at hs1 ⊢
+            obtain ⟨h1, o1⟩ := rm
+            dsimp only at hs1
+            cases o1 with
+            | panic => dsimp only; omega
+            | err =>
+              dsimp only
+              exact Nat.le_of_eq (hs1.symm.trans (move_tail_size n f path h1 root).symm)
+            | ok u =>
+              cases u
+              dsimp only
+              exact Nat.le_of_eq (hs1.symm.trans (move_tail_size n f path h1 root).symm)
+
+theorem patchDoH_size_le (o : HOpObj) (h : Heap) (root : Addr) : h.size ≤ (patchDoH o h root).1.size := by
+  unfold patchDoH
+  cases o.path with
+  | none => exact Nat.le_refl _
+  | some path =>
+    dsimp only
+    split
+    · rw [doAddH_size]; exact Nat.le_refl _
+    · split
+      · rw [doRemoveH_size]; exact Nat.le_refl _
+      · split
+        · rw [doReplaceH_size]; exact Nat.le_refl _
+        · split
+          · exact moveOrCopyH_size_le _ _ _ _ _
+          · split
+            · exact moveOrCopyH_size_le _ _ _ _ _
+            · split
+              · rw [doTestH_heap]; exact Nat.le_refl _
+              · exact Nat.le_refl _
+
+theorem patchOpDoH_size_le (op : String) (frm path : Option Path) (src : ValueSrc) (h : Heap) (root : Addr) :
+    h.size ≤ (patchOpDoH op frm path src h root).1.size := by
+  unfold patchOpDoH
+  cases srcNode h root src with
+  | none => exact patchDoH_size_le _ _ _
+  | some n =>
+    dsimp only
+    cases hc : cloneF h.size h n with
+    | none => exact Nat.le_refl _
+    | some q =>
+      obtain ⟨h1, c⟩ := q
+      dsimp only
+      exact Nat.le_trans (size_le_of_le (cloneF_spec h.size h n h1 c hc).1) (patchDoH_size_le _ _ _)
+
 end Ytk.Heap
